@@ -215,13 +215,15 @@ func (h *HashSetOfValue) IntersectionVal(thread *Thread, other value.Value) (res
 }
 
 func (h *HashSetOfValue) Equal(thread *Thread, other value.Value) (result bool, err value.Value) {
+	otherVal := other
 	switch other := other.SafeAsReference().(type) {
 	case *HashSetOfValue:
 		return HashSetOfValueEqual(thread, h, other)
 	case HashSet:
 		return HashSetOfValueEqualInterface(thread, h, other)
 	default:
-		return false, value.NewCoerceError(value.HashSetClass, other.Class()).ToValue()
+		// `other` is a nil reference when the value is not a reference (Int, nil, ...)
+		return false, value.NewCoerceError(value.HashSetClass, otherVal.Class()).ToValue()
 	}
 }
 
